@@ -1088,6 +1088,17 @@ def run(chk):
         "fewer than 2^28 router keys; single-threaded histories (locking is C16/C06)",
         "rtr_mgr_init / transport allocation paths are outside this property's anchors",
     ]
+    chk.notes += [
+        "observation (not a violation): when the allocation of a shadow table OBJECT fails, rtr_sync_receive_and_store_pdus returns "
+        "RTR_ERROR without changing the socket state (it stays RTR_SYNC): the FSM repeats the query at once, without a retry sleep",
+        "observation: trie_get_children sizes its array with sizeof(struct trie_node) instead of sizeof(struct trie_node *) "
+        "(over-allocation only)",
+        "observation: a failed pfx_table_del_elem shrink in the code as it is puts the element back at the END of the array: the "
+        "contents are unchanged as a set, the enumeration order changes (modelled exactly: set_payload)",
+        "proved for the first part of a synchronisation only (temporary arrays, prefix shadow table, router-key shadow object: "
+        "C18_sync_prepare_contained); the second part (apply / undo / purge / swap / notify_diff / cleanup) is modelled and tied by the "
+        "correspondence run for every k, its containment is not a theorem",
+    ]
     chk.trusted += ["python set oracle `Spec` in tools/props/C18.py", "harness/alloc_inject.c allocator, registry and libc wrappers",
                     "ASan/UBSan reports used to attribute a crash to an allocation site (function names in the stack)"]
     if not pr.ok and reported["tie"] == 0 and reported["spec"] == 0:
